@@ -106,6 +106,10 @@ pub struct Program {
     data_iterator: Option<DataIterator>,
     functions: HashMap<Symbol, FunctionDefinition>,
     nesting: usize,
+    #[cfg(feature = "verif-hooks")]
+    pub(crate) verif_token_reads: std::cell::Cell<u64>,
+    #[cfg(feature = "verif-hooks")]
+    pub(crate) verif_max_nesting: usize,
 }
 
 impl Program {
@@ -401,6 +405,10 @@ impl Program {
             return Err(OutOfMemoryError::StackOverflow.into());
         }
         self.nesting += 1;
+        #[cfg(feature = "verif-hooks")]
+        {
+            self.verif_max_nesting = self.verif_max_nesting.max(self.nesting);
+        }
         Ok(())
     }
 
@@ -542,6 +550,8 @@ impl Program {
     /// Return the next token in the stream, if it exists,
     /// but don't advance our position in it.
     pub fn peek_next_token(&self) -> Option<Token> {
+        #[cfg(feature = "verif-hooks")]
+        self.verif_token_reads.set(self.verif_token_reads.get() + 1);
         self.tokens().get(self.location.token_index).cloned()
     }
 
@@ -657,5 +667,83 @@ impl Program {
                 Some(self.get_prev_location())
             }
         };
+    }
+}
+
+#[cfg(feature = "verif-hooks")]
+impl Program {
+    /// Canonical, read-only dump of the program's runtime bookkeeping.
+    pub(crate) fn verif_snapshot(&self) -> String {
+        use crate::verif_hooks::{enc_loc, enc_tokens, enc_value};
+        let mut parts: Vec<String> = vec![];
+        parts.push(format!("nesting={}", self.nesting));
+        parts.push(format!("loc={}", enc_loc(&self.location)));
+        parts.push(format!(
+            "bp={}",
+            match self.breakpoint {
+                None => "-".to_string(),
+                Some(b) => format!("{}:{}", b.line, b.token_index),
+            }
+        ));
+        parts.push(format!("imm={}", enc_tokens(&self.immediate_line)));
+        let frames = self
+            .stack
+            .iter()
+            .rev()
+            .map(|frame| {
+                let mut vars = frame
+                    .variables
+                    .verif_entries()
+                    .into_iter()
+                    .map(|(k, v)| format!("{}={}", k, enc_value(&v)))
+                    .collect::<Vec<_>>();
+                vars.sort();
+                format!("[ret={} vars={}]", enc_loc(&frame.return_location), vars.join(","))
+            })
+            .collect::<Vec<_>>();
+        parts.push(format!("stack={}", frames.join("")));
+        let loops = self
+            .loop_stack
+            .iter()
+            .rev()
+            .map(|l| {
+                format!(
+                    "[{}@{} to={} step={}]",
+                    l.symbol,
+                    enc_loc(&l.location),
+                    crate::verif_hooks::enc_f64(l.to_value),
+                    crate::verif_hooks::enc_f64(l.step_value)
+                )
+            })
+            .collect::<Vec<_>>();
+        parts.push(format!("loops={}", loops.join("")));
+        parts.push(format!(
+            "data={}",
+            match &self.data_iterator {
+                None => "-".to_string(),
+                Some(it) => it.verif_snapshot(),
+            }
+        ));
+        let mut fns = self
+            .functions
+            .iter()
+            .map(|(name, def)| {
+                format!(
+                    "{}({})@{}:{}",
+                    name,
+                    def.arguments
+                        .iter()
+                        .map(|a| a.to_string())
+                        .collect::<Vec<_>>()
+                        .join(","),
+                    def.location.line,
+                    def.location.token_index
+                )
+            })
+            .collect::<Vec<_>>();
+        fns.sort();
+        parts.push(format!("fns={}", fns.join(" ")));
+        parts.push(format!("lines={}", self.numbered_lines.verif_snapshot()));
+        parts.join(" ; ")
     }
 }
